@@ -75,14 +75,16 @@ int main(int argc, char **argv) {
 	for (int i = 0; i < nrounds; i++) {
 		int n = 2 + (int)(rnd(&r) % (MAXT - 1));
 		long v = (long)(rnd(&r) % 5); if (v == 4) v = 0;
-		int style = (int)(rnd(&r) % 5);	// 0 mixed, 1 pollers vs signallers, 2 timed vs signallers, 3 forever consumers vs signallers,
-										// 4 hammer: signallers vs pollers / very short timed waiters, no delays, value kept near 0
+		int style = (int)(rnd(&r) % 6);	// 0 mixed, 1 pollers vs signallers, 2 timed vs signallers, 3 forever consumers vs signallers,
+										// 4 hammer: signallers vs pollers / very short timed waiters, no delays, value kept near 0,
+										// 5 poll storm on an (almost) empty semaphore: concurrent undo loops, CAS failures
+		if (style == 5) v = 0;
 		cur = dispatch_semaphore_create(v);
 		dv_track(&cur->dsema_value, (size_t)off_sema + sizeof(cur->dsema_sema), i);
 		pthread_t th[MAXT]; static targ_t ta[MAXT];
 		for (int k = 0; k < n; k++) {
-			targ_t *t = &ta[k]; t->round = i; t->idx = k; t->nops = style == 4 ? 12 + (int)(rnd(&r) % (MAXOPS - 11)) : 3 + (int)(rnd(&r) % 10);
-			int role = style == 0 ? 0 : style == 4 ? (k % 2 == 0 ? 5 : 6) : (k % 2 == 0 ? 1 : 1 + style);	// 1, 5 = signaller
+			targ_t *t = &ta[k]; t->round = i; t->idx = k; t->nops = style >= 4 ? 12 + (int)(rnd(&r) % (MAXOPS - 11)) : 3 + (int)(rnd(&r) % 10);
+			int role = style == 0 ? 0 : style == 5 ? (k % 4 == 3 ? 5 : 7) : style == 4 ? (k % 2 == 0 ? 5 : 6) : (k % 2 == 0 ? 1 : 1 + style);	// 1, 5 = signaller
 			for (int j = 0; j < t->nops; j++) {
 				uint64_t x = rnd(&r); op_t *o = &t->ops[j];
 				int op;
@@ -93,14 +95,15 @@ int main(int argc, char **argv) {
 				case 4: op = (x % 8 == 0) ? O_TIMED : O_FOREVER; break;
 				case 5: op = O_SIGNAL; break;
 				case 6: op = (x % 4 == 0) ? O_TIMED : O_NOW; break;
+				case 7: op = O_NOW; break;
 				default: { static const int mix[8] = { O_SIGNAL, O_SIGNAL, O_SIGNAL, O_FOREVER, O_TIMED, O_TIMEDWALL, O_NOW, O_NOW };
 					op = mix[x % 8]; }
 				}
 				o->op = op;
-				o->delay_us = (style != 4 && (x >> 8) % 3 == 0) ? (unsigned)((x >> 16) % 400) : 0;
+				o->delay_us = (style < 4 && (x >> 8) % 3 == 0) ? (unsigned)((x >> 16) % 400) : 0;
 				// 50us .. 5ms, biased to the short end so that timeouts race the signals
 				uint64_t y = (x >> 24) % 100;
-				if (style == 4) y = 0;
+				if (style >= 4) y = 0;
 				o->delta_ns = y < 60 ? 50000 + (x >> 32) % 250000 : (y < 90 ? 300000 + (x >> 32) % 700000 : 1000000 + (x >> 32) % 4000000);
 			}
 		}
